@@ -88,6 +88,13 @@ def r18_1_annotations_delegate(ctx):
         for c in comments:
             if not (len(c.args) == 1 and isinstance(c.args[0], str) and "\n" not in c.args[0] and "\r" not in c.args[0]):
                 problems.append(f"comment op carries text {c.args!r} with a line break")
+        # one comment op per line of the text, lines as str.splitlines() counts them - the function the assembled program is
+        # split with everywhere else in PyTeal (source mapper, annotated TEAL): a piece holding U+2028, NEL, FF ... is counted
+        # as several TEAL lines there although it is one op here
+        pieces = [c.args[0] for c in comments if len(c.args) == 1 and isinstance(c.args[0], str)]
+        multi = [p_ for p_ in pieces if len(p_.splitlines()) > 1]
+        if multi:
+            problems.append(f"comment op text {multi[0]!r} is several lines for str.splitlines(): the source map counts one entry per such line, the program has one op")
         if val.methods["type_of"]() != W.TT.attrs["uint64"] or val.methods["has_return"]() is not False:
             problems.append("type_of / has_return differ from the commented expression's")
         ctx.check(not problems, "R18.1", construct, "; ".join(problems[:2]), cf.where, fact={"ops": [repr(o) for o in ops]})
